@@ -98,7 +98,7 @@ def gen_face_grid(rng, allow_big=False):
 
 
 def gen_case(rng, family=None):
-    family = family or rng.choice(["pad2d", "pad2d", "pad2d", "faceop", "faceop", "sigeq", "sigeq",
+    family = family or rng.choice(["pad2d", "pad2d", "pad2d", "faceop", "faceop", "sigeq", "sigeq", "badtable",
                                    "parse", "parse", "metrics", "metrics", "general", "general", "general",
                                    "registry"])
     words = ["fill", "extend", "periodic"]
@@ -136,6 +136,28 @@ def gen_case(rng, family=None):
             spec["axis"] = rng.choice([["X", "Y"], ["Y", "X"]])
         spec["kw"] = kw
         return spec
+    if family == "badtable":
+        # accept/reject outcome of Grid(...) for a link table with one ill-posing edit (or none)
+        gs = gen_face_grid(rng)
+        links = gs["grid"]["face_connections"]["face"]
+        F = gs["face"]["n"]
+        edges = [(f, a, sd) for f, axl in links.items() for a, lr in axl.items() for sd in (0, 1) if lr[sd] is not None]
+        edit = rng.choice(["none", "wrong_face", "wrong_axis", "flip_reverse", "drop_backlink", "drop_backlink"])
+        if edges and edit != "none":
+            f, a, sd = rng.choice(edges)
+            tgt = list(links[f][a][sd])
+            if edit == "wrong_face":
+                tgt[0] = (tgt[0] + 1 + rng.randrange(max(F - 1, 1))) % F
+                links[f][a][sd] = tgt
+            elif edit == "wrong_axis":
+                tgt[1] = "Y" if tgt[1] == "X" else "X"
+                links[f][a][sd] = tgt
+            elif edit == "flip_reverse":
+                tgt[2] = not tgt[2]
+                links[f][a][sd] = tgt
+            else:
+                links[f][a][sd] = None
+        return {"kind": "badtable", "gspec": gs, "edit": edit}
     if family == "sigeq":
         names_pool = ["X", "Y", "Z", "lon", "lat", "lev", "a", "b", "A0", "A1", "A2", "ax", "ay", "q", "p"]
         k = rng.choice([2, 2, 3])
@@ -334,6 +356,12 @@ def execute(spec, pi=0):
                 else:
                     res = getattr(grid, spec["opname"])(data, spec["axis"], **kw)
                 return ["ok", _res_digest(res)]
+            if kind == "badtable":
+                gs = copy.deepcopy(spec["gspec"])
+                gs["grid"]["face_connections"] = permute_links(gs["grid"]["face_connections"], pi)
+                ds = worlds.build_ds(gs)
+                grid = worlds.build_grid(ds, gs)
+                return ["ok", ["accepted", list(grid.axes)]]
             if kind == "sigeq":
                 s1 = _GridUFuncSignature.from_string(spec["sig1"])
                 s2 = _GridUFuncSignature.from_string(spec["sig2"])
@@ -395,6 +423,11 @@ def execute(spec, pi=0):
                 res = eng_c06.compute_all([res])[0]
                 return ["ok", _res_digest(res)]
         except Exception as e:  # noqa
+            if kind == "badtable":
+                # the property speaks of accept/reject outcomes: which inconsistency of an
+                # ill-formed table is met first (and hence the exception type) may depend on
+                # the listing order, the refusal itself may not
+                return ["exc", "rejected"]
             return ["exc", type(e).__name__]
     raise ValueError(kind)
 
@@ -403,7 +436,7 @@ def involved_orders(spec):
     """Iteration orders, in this interpreter, of the name sets the case involves
     (only for the non-trivial rule; not part of the outcome)."""
     kind = spec["kind"]
-    if kind in ("pad2d", "faceop"):
+    if kind in ("pad2d", "faceop", "badtable"):
         return [list(set(["X", "Y"]))]
     if kind == "sigeq":
         import re
@@ -464,7 +497,9 @@ RULE = (
     "case is run under the identity and two random permutations of the insertion order of the face-link table "
     "(faces and per-face axis entries). Case families: 2-D halo padding on face-connected grids (cubed sphere, "
     "tilings, random reciprocal tables; asymmetric widths 0-2 on both axes; different boundary rules and fill "
-    "values per axis; scalar and vector input), two-axis diff/interp/min/max on the same grids, pairs of "
+    "values per axis; scalar and vector input), two-axis diff/interp/min/max on the same grids, acceptance or "
+    "refusal of link tables carrying one ill-posing edit (wrong face, wrong axis, flipped reverse flag, missing "
+    "back-link), pairs of "
     "multi-axis grid-ufunc signatures (consistent renaming, permuted positions, swapped names) judged by "
     "equivalent() in both directions, Grid construction from COMODO (2-4 axes) and SGRID (2-D, 2-D+vertical, 3-D) "
     "metadata followed by order-sensitive two-axis operations, metric registries offering several partitions of "
@@ -492,7 +527,7 @@ def parent_main(tier, seed, args):
     clock = core.Clock()
     known = core.Known()
     K = int(os.environ.get("XSIM_HASHSEEDS", 16 if tier == "quick" else 48))
-    W = args.runs or int(os.environ.get("XSIM_RUNS", 0)) or (700 if tier == "quick" else 6000)
+    W = args.runs or int(os.environ.get("XSIM_RUNS", 0)) or (700 if tier == "quick" else 2000)
     nprobe = 1200 if tier == "quick" else 4000
     hseeds, coverage, nprobed = choose_hash_seeds(seed, K, nprobe)
     print(f"[C12] tier={tier} VERIF_SEED={seed} cases={W} hash seeds={K} (chosen from {nprobed} probed)")
